@@ -517,6 +517,7 @@ impl<'a> LegalDfs<'a> {
             return;
         }
         self.nodes += 1;
+        crate::watchdog::beat();
         if phase == 0 && hist_len >= 1 {
             for k in 1..=hist_len.min(2) {
                 let mut r = m.clone();
